@@ -910,7 +910,7 @@ class FrameOps:
                 problems.append(f'shape={shape} len(columns)={ncols} labels={len(clist)} data columns={len(arrays)}')
         if not problems:
             for j, lab in enumerate(clist):
-                plain = isinstance(lab, (str, int, np.integer)) or (isinstance(lab, tuple) and all(isinstance(x, (str, int, np.integer)) for x in lab))
+                plain = isinstance(lab, (str, int, np.integer, np.datetime64)) or (isinstance(lab, tuple) and all(isinstance(x, (str, int, np.integer, np.datetime64)) for x in lab))
                 st, s = call(lambda: obj[lab] if plain else None)
                 if st == 'raise':
                     problems.append(f'column {lab!r} not readable by label: {type(s).__name__}: {s}')
